@@ -219,6 +219,34 @@ fn gen_req(rng: &mut Rng, depth: u32, wide: bool) -> Req {
     }
 }
 
+/// corpus for key-ordered terms with a per-segment cut: every field single-valued and full (never in class F141),
+/// many distinct terms per segment (numeric terms, u1 >= 8 000 000 so that the top-level collector uses hash-map storage)
+fn gen_keycut_corpus(rng: &mut Rng, n: usize) -> Vec<Doc> {
+    let pool: Vec<String> = (0..150).map(|i| format!("t{:03}{}", i, if i % 7 == 0 { "é" } else { "" })).collect();
+    (0..n).map(|_| Doc { vals: vec![
+        vec![Val::I(rng.range(0, 4000) as i64 - 2000)],
+        vec![Val::I(8_000_000 + rng.range(0, 3000) as i64)],
+        vec![Val::S(rng.pick(&pool).clone())],
+        vec![Val::I(rng.range(0, 20) as i64 - 10)],
+        vec![Val::I(rng.range(0, 24) as i64 - 8)],
+        vec![Val::S(rng.pick(&["a", "b", "c"]).to_string())],
+    ] }).collect()
+}
+
+/// terms ordered by _key with a small size and the DEFAULT segment_size (10 x size), top-level or below a bucket parent.
+/// For key order the result is exact even when segments cut their lists.
+fn gen_keycut_req(rng: &mut Rng) -> Req {
+    let size = rng.range(1, 3) as u32;
+    let subs = if rng.chance(1, 2) { vec![Req::Metric { kind: *rng.pick(&[MKind::Count, MKind::Sum, MKind::Max]), field: 4, missing: None }] } else { vec![] };
+    let inner = Req::Terms { field: *rng.pick(&[0usize, 1, 2, 0, 1]), size, seg_size: None, mdc: 1, order: TOrd::Key(rng.chance(1, 2)), missing: None, subs };
+    match rng.below(5) {
+        0 | 1 => inner,
+        2 => Req::Range { field: 3, cuts: vec![0], style: 0, subs: vec![inner] },
+        3 => Req::Histo { field: 3, interval: (10, 1), offset: (0, 1), mdc: 1, hard: None, ext: None, subs: vec![inner] },
+        _ => Req::Terms { field: 5, size: 10, seg_size: Some(5000), mdc: 1, order: TOrd::Key(false), missing: None, subs: vec![inner] },
+    }
+}
+
 fn q_json(q: (i64, i64)) -> Value { json!(q.0 as f64 / q.1 as f64) }
 
 fn subs_json(subs: &[Req]) -> Value {
@@ -291,7 +319,7 @@ fn req_json(r: &Req) -> Value {
                     b.insert("order".into(), Value::Object(o));
                 }
             }
-            b.insert("show_term_doc_count_error".into(), json!(true));
+            if seg_size.is_some() { b.insert("show_term_doc_count_error".into(), json!(true)); }
             match missing { Some(Val::I(x)) => { b.insert("missing".into(), json!(x)); } Some(Val::S(s)) => { b.insert("missing".into(), json!(s)); } None => {} }
             node.insert("terms".into(), Value::Object(b));
             subs
@@ -540,6 +568,142 @@ fn merge_shape(mut fruits: Vec<IntermediateAggregationResults>, shape: u64, rt: 
 /// canonical JSON for equality between runs: object keys sorted (serde_json Map is a BTreeMap here)
 fn canon(v: &Value) -> String { serde_json::to_string(v).unwrap() }
 
+// ------------------------------------------------------------------------------------------------
+// Fractional histograms (decided on the implementation side): full columns t (text), k (u64), x (f64) with
+// fractional values; interval / offset that are not sums of powers of two.  Bucket identity is exact f64 equality,
+// so (1) every non-empty bucket key must equal the documented formula floor((v - offset) / interval) * interval + offset
+// evaluated independently in f64, with the exact doc count, and (2) one segment, several segments and every
+// distributed merge order must give identical keys and counts.  Shapes: terms(t|k) > histogram(x) leaf (the fused
+// terms x histogram collector), histogram(x) alone and range(k) > histogram(x) (the general collector).
+fn frac_index(parts: &[Vec<(String, u64, f64)>]) -> tantivy::Result<Index> {
+    let mut sb = Schema::builder();
+    let t = sb.add_text_field("t", STRING | FAST);
+    let k = sb.add_u64_field("k", FAST);
+    let x = sb.add_f64_field("x", FAST);
+    let index = Index::create_in_ram(sb.build());
+    let mut w: IndexWriter = index.writer_with_num_threads(1, 20_000_000)?;
+    w.set_merge_policy(Box::new(tantivy::merge_policy::NoMergePolicy));
+    for p in parts {
+        if p.is_empty() { continue; }
+        for (ts, kv, xv) in p {
+            let mut d = TantivyDocument::default();
+            d.add_text(t, ts); d.add_u64(k, *kv); d.add_f64(x, *xv);
+            w.add_document(d)?;
+        }
+        w.commit()?;
+    }
+    w.wait_merging_threads()?;
+    Ok(index)
+}
+
+fn hist_key(v: f64, interval: f64, offset: f64) -> f64 {
+    let pos = ((v - offset) / interval).floor() as i64;
+    let key = pos as f64 * interval + offset;
+    if key == 0.0 { 0.0 } else { key }
+}
+
+/// non-empty histogram buckets of a result node as (key bits, count)
+fn hist_nonempty(v: &Value) -> Result<Vec<(u64, u64)>, String> {
+    let mut out = vec![];
+    for b in v.get("buckets").and_then(|b| b.as_array()).ok_or("histogram buckets")? {
+        let key = b.get("key").and_then(|k| k.as_f64()).ok_or("histogram key")?;
+        let cnt = b.get("doc_count").and_then(|c| c.as_u64()).ok_or("doc_count")?;
+        if cnt > 0 { out.push(((if key == 0.0 { 0.0 } else { key }).to_bits(), cnt)); }
+    }
+    out.sort();
+    Ok(out)
+}
+
+fn frac_stream(out: &mut CaseOut, rng: &mut Rng, thorough: bool) {
+    use std::collections::BTreeMap;
+    let n = if thorough { 150 } else { 30 };
+    for ci in 0..n {
+        let (interval, offset): (f64, f64) = *rng.pick(&[(0.1, 0.0), (0.3, 0.0), (2.5, 0.7), (0.1, 0.03), (0.7, 0.2), (0.3, 0.1), (1.1, 0.0), (0.25, 0.0), (0.05, 0.01)]);
+        let lo: f64 = *rng.pick(&[0.5, 1.7, -2.3, 10.0, 0.9, 100.3]);
+        let step: f64 = *rng.pick(&[0.1, 0.05, 0.3, 1.0 / 3.0, 0.7]);
+        let n_terms = rng.range(2, 6);
+        let n_docs = rng.range(3, 60) as usize;
+        let docs: Vec<(String, u64, f64)> = (0..n_docs).map(|_| {
+            let m = rng.range(0, 40) as f64;
+            (format!("t{}", rng.below(n_terms)), rng.below(n_terms), match ci % 3 { 0 => lo + m * step, 1 => (lo * 10.0 + m) / 10.0, _ => lo + m * step + 0.01 })
+        }).collect();
+        let mut partitions: Vec<Vec<Vec<(String, u64, f64)>>> = vec![vec![docs.clone()]];
+        for _ in 0..3 {
+            let k = rng.range(2, 5) as usize;
+            let mut parts = vec![vec![]; k];
+            for d in &docs { parts[rng.below(k as u64) as usize].push(d.clone()); }
+            parts.retain(|p: &Vec<(String, u64, f64)>| !p.is_empty());
+            partitions.push(parts);
+        }
+        let indexes: Vec<Index> = partitions.iter().map(|p| frac_index(p).expect("index build")).collect();
+        let split: Vec<Index> = partitions.last().unwrap().iter().map(|p| frac_index(std::slice::from_ref(p)).expect("index build")).collect();
+        for mdc in [1u64, 0] {
+            let hist = json!({"histogram": {"field": "x", "interval": interval, "offset": offset, "min_doc_count": mdc}});
+            let shapes: Vec<(&str, Value)> = vec![
+                ("terms(t)>histogram", json!({"a0": {"terms": {"field": "t", "size": 100, "order": {"_key": "asc"}}, "aggs": {"a0": hist.clone()}}})),
+                ("terms(k)>histogram", json!({"a0": {"terms": {"field": "k", "size": 100, "order": {"_key": "asc"}}, "aggs": {"a0": hist.clone()}}})),
+                ("histogram", json!({"a0": hist.clone()})),
+                ("range(k)>histogram", json!({"a0": {"range": {"field": "k", "ranges": [{"to": 2.0}, {"from": 2.0}]}, "aggs": {"a0": hist.clone()}}})),
+            ];
+            for (shape, rjson) in shapes {
+                let aggs: Aggregations = serde_json::from_value(rjson.clone()).expect("fractional request");
+                let desc = json!({"what": "fractional histogram", "shape": shape, "request": rjson, "docs": docs, "interval": interval, "offset": offset});
+                out.count("fractional_histogram_requests", 1);
+                let base = match run_final(&indexes[0], &AllQuery, &aggs) {
+                    Ok(v) => v,
+                    Err(e) => { out.spec_checked(false, json!({"what": "aggregation failed on a valid request", "error": e, "case": desc})); continue; }
+                };
+                // (1) oracle: the documented formula evaluated independently in f64
+                let group_of = |d: &(String, u64, f64)| -> String { match shape { "terms(t)>histogram" => d.0.clone(), "terms(k)>histogram" => d.1.to_string(), "histogram" => String::new(), _ => if d.1 < 2 { "lo".into() } else { "hi".into() } } };
+                let mut expect: BTreeMap<String, BTreeMap<u64, u64>> = BTreeMap::new();
+                for d in &docs { *expect.entry(group_of(d)).or_default().entry(hist_key(d.2, interval, offset).to_bits()).or_default() += 1; }
+                let mut got: BTreeMap<String, Vec<(u64, u64)>> = BTreeMap::new();
+                let mut shape_err: Option<String> = None;
+                if shape == "histogram" {
+                    match hist_nonempty(&base["a0"]) { Ok(h) => { got.insert(String::new(), h); } Err(e) => shape_err = Some(e) }
+                } else {
+                    for b in base["a0"]["buckets"].as_array().cloned().unwrap_or_default() {
+                        if b["doc_count"].as_u64() == Some(0) { continue; }
+                        let name = match shape { "range(k)>histogram" => if b.get("from").is_some() { "hi".to_string() } else { "lo".to_string() },
+                                                 _ => match &b["key"] { Value::String(s) => s.clone(), other => other.to_string() } };
+                        match hist_nonempty(&b["a0"]) { Ok(h) => { got.insert(name, h); } Err(e) => shape_err = Some(e) }
+                    }
+                }
+                let expect_v: BTreeMap<String, Vec<(u64, u64)>> = expect.into_iter().map(|(k, m)| (k, m.into_iter().collect())).collect();
+                let show = |m: &BTreeMap<String, Vec<(u64, u64)>>| -> Value { json!(m.iter().map(|(k, v)| (k.clone(), v.iter().map(|(b, c)| (f64::from_bits(*b), *c)).collect::<Vec<_>>())).collect::<BTreeMap<_, _>>()) };
+                out.spec_checked(shape_err.is_none() && got == expect_v,
+                    json!({"what": "histogram bucket keys / doc counts differ from floor((v - offset) / interval) * interval + offset evaluated in f64", "case": desc,
+                           "expected": show(&expect_v), "impl": show(&got), "impl_json": base, "shape_error": shape_err}));
+                // (2) exact equality of keys and counts over partitions and merge orders
+                let base_c = canon(&base);
+                for (parts, ix) in partitions.iter().zip(indexes.iter()).skip(1) {
+                    match run_final(ix, &AllQuery, &aggs) {
+                        Ok(v) => out.spec_checked(canon(&v) == base_c, json!({"what": "fractional histogram: result depends on the partition into segments", "segments": parts.len(), "case": desc, "one_segment": base, "impl": v})),
+                        Err(e) => out.spec_checked(false, json!({"what": "aggregation failed on a partition", "error": e, "case": desc})),
+                    }
+                    out.count("fractional_partition_runs", 1);
+                }
+                let fruits: Vec<IntermediateAggregationResults> = match split.iter().map(|ix| run_fruit(ix, &AllQuery, &aggs)).collect::<Result<Vec<_>, _>>() {
+                    Ok(f) => f,
+                    Err(e) => { out.spec_checked(false, json!({"what": "distributed collection failed", "error": e, "case": desc})); continue; }
+                };
+                for oi in 0..3u64 {
+                    let mut fs = fruits.clone();
+                    if oi > 0 { rng.shuffle(&mut fs); }
+                    let merged = match merge_shape(fs, oi + 1, oi % 2 == 1, rng) { Ok(m) => m, Err(e) => { out.spec_checked(false, json!({"what": "merge_fruits failed", "error": e, "case": desc})); continue; } };
+                    match guarded(|| merged.into_final_result(aggs.clone(), AggregationLimitsGuard::default())) {
+                        Ok(Ok(res)) => { let v = serde_json::to_value(&res).unwrap();
+                                         out.spec_checked(canon(&v) == base_c, json!({"what": "fractional histogram: distributed merge differs from the single-segment result", "order": oi, "case": desc, "one_segment": base, "impl": v})); }
+                        Ok(Err(e)) => out.spec_checked(false, json!({"what": "into_final_result failed", "error": e.to_string(), "case": desc})),
+                        Err(p) => out.spec_checked(false, json!({"what": "into_final_result panicked", "error": p, "case": desc})),
+                    }
+                    out.count("fractional_merge_orders", 1);
+                }
+            }
+        }
+    }
+}
+
 fn main() {
     let args = Args::parse();
     tvh::quiet_panics();
@@ -551,12 +715,14 @@ fn main() {
     let reqs_per_corpus = if thorough { 8 } else { 6 };
     let mut tie_dependent = 0u64;
 
-    for ci in 0..n_corpora {
+    let n_keycut = if thorough { 60 } else { 8 };
+    for ci in 0..n_corpora + n_keycut {
+        let keycut = ci >= n_corpora;
         let profile = rng.below(12);
         let n_docs = match ci % 6 { 0 => rng.range(1, 4) as usize, 1 => rng.range(5, 12) as usize, _ => rng.range(10, if thorough { 60 } else { 36 }) as usize };
-        let corpus = gen_corpus(&mut rng, n_docs, profile);
+        let corpus = if keycut { let n = rng.range(90, 160) as usize; gen_keycut_corpus(&mut rng, n) } else { gen_corpus(&mut rng, n_docs, profile) };
         // filtering query: all documents or grp == g
-        let filter_g: Option<&str> = match ci % 3 { 0 => None, 1 => Some("a"), _ => Some("b") };
+        let filter_g: Option<&str> = if keycut { None } else { match ci % 3 { 0 => None, 1 => Some("a"), _ => Some("b") } };
         let matching = |d: &Doc| filter_g.map_or(true, |g| d.vals[5] == vec![Val::S(g.to_string())]);
         let (_, fl) = schema();
         let query: Box<dyn Query> = match filter_g {
@@ -567,7 +733,7 @@ fn main() {
         let n_part = if thorough { 5 } else { 3 };
         let mut partitions: Vec<Vec<Vec<Doc>>> = vec![vec![corpus.clone()]];
         for pi in 0..n_part {
-            let k = if pi == 0 { 2 } else { rng.range(2, 6) as usize };
+            let k = if pi == 0 || keycut { 2 } else { rng.range(2, 6) as usize };
             let mut parts: Vec<Vec<Doc>> = vec![vec![]; k];
             for d in &corpus { parts[rng.below(k as u64) as usize].push(d.clone()); }
             parts.retain(|p| !p.is_empty());
@@ -583,9 +749,10 @@ fn main() {
         let split_parts = partitions.last().unwrap().clone();
         let split_indexes: Vec<Index> = split_parts.iter().map(|p| build_index(std::slice::from_ref(p)).expect("index build")).collect();
 
-        for _ in 0..reqs_per_corpus {
+        for _ in 0..(if keycut { 3 } else { reqs_per_corpus }) {
             let n_top = *rng.pick(&[1usize, 1, 2, 3]);
-            let rs: Vec<Req> = (0..n_top).map(|_| gen_req(&mut rng, 2, profile % 3 == 2)).collect();
+            let rs: Vec<Req> = if keycut { out.count("key_ordered_terms_with_segment_cut", 1); vec![gen_keycut_req(&mut rng)] }
+                               else { (0..n_top).map(|_| gen_req(&mut rng, 2, profile % 3 == 2)).collect() };
             let rjson = subs_json(&rs);
             let aggs: Aggregations = match serde_json::from_value(rjson.clone()) {
                 Ok(a) => a,
@@ -708,6 +875,9 @@ fn main() {
             }
         }
     }
+    // ---- fractional intervals / offsets / values (fused terms x histogram path and the general path)
+    frac_stream(&mut out, &mut rng, thorough);
+
     // ---- terms whose segments cut their term lists (segment_size small): the partial statement
     let n_cut = if thorough { 120 } else { 30 };
     for ci in 0..n_cut {
